@@ -297,18 +297,19 @@ nfa, with no epsilon transition
             A dfa equivalent to the current nfa
         """
         dfa = finite_automaton.DeterministicFiniteAutomaton()
+        merged_states = MergedStates()
         # Add Eclose
         if eclose:
             start_eclose = self.eclose_iterable(self._start_state)
         else:
             start_eclose = self._start_state
-        start_state = to_single_state(start_eclose)
+        start_state = merged_states.get(start_eclose)
         dfa.add_start_state(start_state)
         to_process = [start_eclose]
         processed = {start_state}
         while to_process:
             current = to_process.pop()
-            s_from = to_single_state(current)
+            s_from = merged_states.get(current)
             for symb in self._input_symbols:
                 all_trans = [self._transition_function(x, symb)
                              for x in current]
@@ -320,7 +321,7 @@ nfa, with no epsilon transition
                 # Eclose added
                 if eclose:
                     state = self.eclose_iterable(state)
-                state_merged = to_single_state(state)
+                state_merged = merged_states.get(state)
                 dfa.add_transition(s_from, symb, state_merged)
                 if state_merged not in processed:
                     processed.add(state_merged)
@@ -970,6 +971,27 @@ def to_single_state(l_states: Iterable[State]) -> State:
             values.append("TRASH")
     values = sorted(values)
     return State(";".join(values))
+
+
+class MergedStates:
+    """ Gives a merged state to each set of states, making sure that two
+    different sets never get the same merged state, even when their textual
+    names coincide (e.g. {"0;1"} and {"0", "1"}, or {1} and {"1"}). """
+
+    def __init__(self):
+        self._merged = {}
+        self._used = set()
+
+    def get(self, l_states: Iterable[State]) -> State:
+        """ Get the merged state of a collection of states """
+        key = frozenset(l_states)
+        if key not in self._merged:
+            state = to_single_state(key)
+            while state in self._used:
+                state = State(str(state.value) + "'")
+            self._used.add(state)
+            self._merged[key] = state
+        return self._merged[key]
 
 
 def combine_state_pair(state0, state1):
